@@ -141,7 +141,28 @@ def h_string(ctx, cls, length, n):
         ctx.check("warn-only string is written whole", t == v)
 
 
-HARNESSES = dict(decimal_foreign=h_decimal_foreign, decimal=h_decimal, decimal_special=h_decimal_special, decimal_text=h_decimal_text, integer=h_integer,
+def h_string_tokens(ctx, length, ntok):
+    """values that still contain literal entity text: the limit applies to the characters actually written"""
+    from harness.c10 import TOKENS_STR
+    conv = Types.String(length)
+    v = ""
+    for i in range(ntok):
+        v = v + ctx.choice(f"tok{i}", TOKENS_STR)
+    t = written(conv, v)
+    ctx.check("bounded String beyond its limit is refused, never written", (t is None) == (len(v) > length))
+    if t is not None:
+        ctx.check("written bounded String does not exceed its limit", len(t) <= length)
+    held = None
+    try:
+        held = conv.convert(v)
+    except REFUSE:
+        held = None
+    if held is not None:
+        t2 = written(conv, held)
+        ctx.check("a value held after reading is written within the limit or refused", t2 is None or len(t2) <= length)
+
+
+HARNESSES = dict(string_tokens=h_string_tokens, decimal_foreign=h_decimal_foreign, decimal=h_decimal, decimal_special=h_decimal_special, decimal_text=h_decimal_text, integer=h_integer,
                  integer_bool=h_integer_bool, bool=h_bool, oneof=h_oneof, string=h_string, write=c09.h_write)
 
 META = dict(
@@ -177,6 +198,9 @@ def instances(tier, seed):
     mk("integer_bool", "integer_bool", {})
     mk("bool", "bool", {})
     mk("oneof", "oneof", {})
+    for L in (3, 6):
+        for ntok in (1, 2):
+            mk(f"string_tokens[{L},{ntok}]", "string_tokens", dict(length=L, ntok=ntok))
     for cls in ("String", "NagString"):
         for L in (1, 2, 3):
             for n in range(1, L + 2):
